@@ -71,7 +71,7 @@ fn spec(t: Tier) -> Spec {
     Spec {
         id: "C16",
         level: "exploration",
-        rule: format!("components: literal x, literal é, escapes \\a \\b \\f \\n \\r \\t \\v \\\\ \\0 \\101, %%, and each directive of p f h H P d s n i U G m y Y l with flag (none, -) x width (none, 1, 9): 103 components. Every format of <= {all} components on every configuration (9 starting-point spellings: r ./r r/ r// r/. . ../w/r absolute link-to-dir x -P -H -L) and of <= {deep} components on all 27 configurations in thorough (quick: on one, r/ under -H), rendered by the real find over a sandbox with every entry kind (regular, setuid, hard links, empty/non-empty/sticky/setgid directories, fifo, socket, links to each, dangling, outside, at depth 0..2, owners 0/1/54321/2^31) in -sorted order, several formats per run as consecutive -printf actions; the whole output must equal, byte for byte, the independent renderer's (values from lstat()/stat()/readlink() of the selected record, padding left/right to the width, never truncated, literals verbatim, nothing appended). A mismatching batch is bisected to the format and to the component. two -fprintf and one -fprint on the SAME file (renderings follow one another per entry); -fprintf FILE FORMAT is run for every single-component format (every third FILE exists beforehand with 20 000 bytes of other content); mount-point slice: %i %n %s %m %U %y on a tree with a tmpfs mounted inside it (the directory entry of a mount point carries the covered directory's inode number); wide-field slice: every directive and flag with widths 10, 16, 100, 255, 256, 1000 (and 65535 for %d, %y) followed by a literal, on every configuration. non-trivial = format containing a directive", all = t.pick(2, 2), deep = 3),
+        rule: format!("components: literal x, literal é, escapes \\a \\b \\f \\n \\r \\t \\v \\\\ \\0 \\101, %%, and each directive of p f h H P d s n i U G m y Y l with flag (none, -) x width (none, 1, 9): 103 components. Every format of <= {all} components on every configuration (9 starting-point spellings: r ./r r/ r// r/. . ../w/r absolute link-to-dir x -P -H -L) and of <= {deep} components on all 27 configurations in thorough (quick: on one, r/ under -H), rendered by the real find over a sandbox with every entry kind (regular, setuid, hard links, empty/non-empty/sticky/setgid directories, fifo, socket, links to each, dangling, outside, at depth 0..2, owners 0/1/54321/2^31) in -sorted order, several formats per run as consecutive -printf actions; the whole output must equal, byte for byte, the independent renderer's (values from lstat()/stat()/readlink() of the selected record, padding left/right to the width, never truncated, literals verbatim, nothing appended). A mismatching batch is bisected to the format and to the component. two -fprintf and one -fprint on the SAME file (renderings follow one another per entry); -fprintf FILE FORMAT is run for every single-component format (every third FILE exists beforehand with 20 000 bytes of other content); several starting points in one run: every ordered pair (and three longer lists) of 8 spellings of different lengths x %p %f %h %H %P %d %s %m %y x the three follow modes, also under -mindepth 1 and -depth; mount-point slice: %i %n %s %m %U %y on a tree with a tmpfs mounted inside it (the directory entry of a mount point carries the covered directory's inode number); wide-field slice: every directive and flag with widths 10, 16, 100, 255, 256, 1000 (and 65535 for %d, %y) followed by a literal, on every configuration. non-trivial = format containing a directive", all = t.pick(2, 2), deep = 3),
         bound: json!({"components": 103, "max_components_all_configs": 2, "max_components_deep_configs": 3, "configs": 27}),
         assumptions: vec![
             "not judged (entries filtered out of the run by -path): %Y and %l on a link the follow mode resolves, %Y on a dangling link; %h when the part before the last component is empty ('/x') or itself ends in a slash ('r//x')".into(),
@@ -92,6 +92,8 @@ fn build(ctx: &Ctx) -> Result<String, String> {
     // a sub-directory (and a file in it) named like the starting point: r/r/r
     std::fs::create_dir(w.join("r/r")).map_err(|e| e.to_string())?;
     std::fs::write(w.join("r/r/r"), b"rr").map_err(|e| e.to_string())?;
+    // an entry whose path continues the text of the directory visited just before it (r/dn/x, then r/dnz)
+    std::fs::write(w.join("r/dnz"), b"z").map_err(|e| e.to_string())?;
     let u = w.join("u\u{e9}");
     std::fs::create_dir(&u).map_err(|e| e.to_string())?;
     std::fs::write(u.join("\u{e9}t\u{e9}"), b"").map_err(|e| e.to_string())?;
@@ -484,6 +486,10 @@ fn run(ctx: &mut Ctx) {
         mount_point_slice(ctx);
         let _ = std::env::set_current_dir(&w);
     }
+    job += 1;
+    if ctx.mine(job) {
+        multi_root_slice(ctx, &comps);
+    }
     // verbatim copying of a multi-byte file name (no widths: char/byte padding is unspecified)
     job += 1;
     if ctx.mine(job) {
@@ -497,6 +503,114 @@ fn run(ctx: &mut Ctx) {
             ctx.rep.machinery(e.clone());
         }
     });
+}
+
+/// Pre-order list (with depths) to the order of a -depth walk.
+fn post_order(ents: Vec<Ent>) -> Vec<Ent> {
+    let mut out = vec![];
+    let mut stack: Vec<Ent> = vec![];
+    for e in ents {
+        while stack.last().is_some_and(|t| t.depth >= e.depth) {
+            out.push(stack.pop().unwrap());
+        }
+        stack.push(e);
+    }
+    while let Some(t) = stack.pop() {
+        out.push(t);
+    }
+    out
+}
+
+/// Several starting points in one run (state kept from one starting point to the next: %P and %H are
+/// relative to the starting point the entry was found under, %d restarts at 0): every ordered pair
+/// and a few triples of spellings of different lengths, every plain directive that is judged on all
+/// entries, all three follow modes.
+fn multi_root_slice(ctx: &mut Ctx, comps: &[Comp]) {
+    let spellings: Vec<String> = vec!["r".into(), "./r".into(), "r/".into(), "u\u{e9}".into(), "u\u{e9}/\u{e9}t\u{e9}".into(), "lr".into(), "../w/r/dn".into(), "r/dn/".into()];
+    let mut lists: Vec<Vec<&String>> = vec![];
+    for a in &spellings {
+        for b in &spellings {
+            lists.push(vec![a, b]);
+        }
+    }
+    lists.push(vec![&spellings[6], &spellings[0], &spellings[3]]);
+    lists.push(vec![&spellings[3], &spellings[6], &spellings[4], &spellings[0]]);
+    lists.push(vec![&spellings[4], &spellings[4], &spellings[1]]);
+    let plain: Vec<&Comp> = comps.iter().filter(|c| matches!(c, Comp::Dir { d, left: false, width: None, .. } if "pfhHPdsmy".contains(*d))).collect();
+    let nl = comps.iter().find(|c| matches!(c, Comp::Lit(t, _) if *t == "\\n")).expect("newline component");
+    for (follow, variant) in [('P', ""), ('H', ""), ('L', ""), ('P', "-mindepth"), ('L', "-depth"), ('H', "-mindepth")] {
+        for list in &lists {
+            let cfgs: Vec<Cfg> = list
+                .iter()
+                .map(|r| {
+                    let mut ents = walk(r, follow);
+                    if variant == "-mindepth" {
+                        ents.retain(|e| e.depth >= 1);
+                    }
+                    if variant == "-depth" {
+                        ents = post_order(ents);
+                    }
+                    Cfg { root: r.as_str(), follow, ents }
+                })
+                .collect();
+            if variant.is_empty() && cfgs.iter().any(|c| c.ents.is_empty()) {
+                ctx.rep.machinery(format!("reference walk of one of {list:?} is empty"));
+                continue;
+            }
+            let fmts: Vec<Vec<&Comp>> = plain.iter().map(|c| vec![*c, nl]).collect();
+            let run = |fmts: &[Vec<&Comp>]| -> Option<(Vec<u8>, crate::findrun::FindOut, Vec<String>, u64)> {
+                let mut expected = vec![];
+                let mut judged = 0u64;
+                for cfg in &cfgs {
+                    for e in &cfg.ents {
+                        for f in fmts {
+                            expected.extend_from_slice(&render(f, e, cfg.root)?);
+                            judged += 1;
+                        }
+                    }
+                }
+                let mut argv: Vec<String> = vec![format!("-{follow}")];
+                argv.extend(list.iter().map(|r| r.to_string()));
+                argv.push("-sorted".into());
+                match variant {
+                    "-mindepth" => argv.extend(["-mindepth".to_string(), "1".to_string()]),
+                    "-depth" => argv.push("-depth".into()),
+                    _ => {}
+                }
+                for f in fmts {
+                    argv.extend(["-printf".to_string(), fmt_text(f)]);
+                }
+                let args: Vec<&str> = argv.iter().map(|s| s.as_str()).collect();
+                let got = run_find(&args);
+                if got.out == expected && got.code == Ok(0) {
+                    Some((vec![], got, vec![], judged))
+                } else {
+                    Some((expected, got, argv, 0))
+                }
+            };
+            // formats that are not judged on some entry of these starting points are left out
+            let fmts: Vec<Vec<&Comp>> = fmts.into_iter().filter(|f| cfgs.iter().all(|c| c.ents.iter().all(|e| render(f, e, c.root).is_some()))).collect();
+            ctx.rep.count("multi_root_runs", 1);
+            let Some((_, _, argv, judged)) = run(&fmts) else { continue };
+            ctx.rep.evaluations += judged;
+            ctx.rep.nontrivial += fmts.len() as u64;
+            if argv.is_empty() {
+                continue;
+            }
+            for f in &fmts {
+                let Some((exp, got, argv, _)) = run(std::slice::from_ref(f)) else { continue };
+                if argv.is_empty() {
+                    continue;
+                }
+                let kind = if got.panicked() { "panic" } else if got.code != Ok(0) { "non-zero status" } else { "output differs" };
+                ctx.rep.violation(
+                    &format!("C16 {kind}: {} with several starting points [-{follow}{}{variant}]", f[0].text(), if variant.is_empty() { "" } else { " " }),
+                    format!("find {:?}\nexpected {}\nactual   {}\nstatus {:?} stderr {}", argv, show(&exp), show(&got.out), got.code, show(&got.err)),
+                    json!({"prop":"C16","multi_root":list,"variant":variant,"follow":follow.to_string(),"format":f.iter().map(|c| c.text()).collect::<Vec<_>>()}),
+                );
+            }
+        }
+    }
 }
 
 fn mount_point_slice(ctx: &mut Ctx) {
